@@ -156,7 +156,7 @@ fn check(args: &[String]) -> i32 {
     let max_runs = std::env::var("SESSIM_MAX_RUNS").ok().and_then(|s| s.parse().ok()).unwrap_or(max_runs);
 
     println!("sessim: property={PROPERTY} tier={tier} VERIF_SEED={seed} workers={workers}");
-    let (progs, n_harvested) = programs::build_workload(&repo, seed, n_generated);
+    let (progs, n_harvested) = programs::build_workload_with(&repo, Some(&verif), seed, n_generated);
     if n_harvested < 20 {
         eprintln!("HARNESS-ERROR: only {n_harvested} programs harvested from {}", repo.display());
         return 2;
